@@ -13,10 +13,15 @@
 (*        dt      ms since the previous observation                           *)
 (*        mk, mv  the counter move: mk = 0: add mv (mod 2^16), mk = 1: set mv *)
 (*        cnt     the counter after the move (in Z/2^16), now: the instant    *)
-(*        f_i     1 iff window i sampled at this observation                  *)
+(*        f_i     1: window i samples at this observation; 0: it does not     *)
+(*                and keeps its rate; 2: its own length has elapsed but a     *)
+(*                shorter window did not sample (the library's cascade does   *)
+(*                not consult it) or the counter reads 0 (the library does    *)
+(*                not sample then): the property does not say                 *)
 (*        n_i     numerator of window i's rate after the observation: the     *)
-(*                rate is n_i / w_i per second (n_i = growth * 1000, w_i ms)  *)
-(*        a_i     (only when f_i = 1) numerator under the plain-number        *)
+(*                rate is n_i / w_i per second (n_i = growth * 1000, w_i ms); *)
+(*                for f_i = 2: the numerator it would report if it sampled    *)
+(*        a_i     (only when f_i > 0) numerator under the plain-number        *)
 (*                reading of "increase"; differs from n_i only when the move  *)
 (*                crosses the sign boundary of the fixed-width difference     *)
 (*        avn/avd the average after the observation, per second: avn = total  *)
@@ -43,11 +48,13 @@ GenApi == {<<1, Add(1000)>>, <<10000, Add(1000)>>, <<30000, Add(1)>>, <<10000, A
 GenFull == AllDts \X AllMoves
 
 B(x) == IF x THEN 1 ELSE 0
+F(i, e) == IF i \in e.fired THEN 1 ELSE IF i \in e.may THEN 2 ELSE 0
+N(i, e, w) == IF i \in e.may THEN e.num[i] ELSE w[i].num
 
 ObsEntry(a, st, c, t, w, e, a0, tt0) ==
   <<0, B(st), a[1], IF a[2][1] = "add" THEN 0 ELSE 1, a[2][2], c, t,
-    B(1 \in e.fired), B(2 \in e.fired), B(3 \in e.fired),
-    w[1].num, w[2].num, w[3].num,
+    F(1, e), F(2, e), F(3, e),
+    N(1, e, w), N(2, e, w), N(3, e, w),
     e.alt[1], e.alt[2], e.alt[3],
     AvgNum(a0, c), IF a0 # 0 THEN t - tt0 ELSE 0, IF a0 # 0 THEN AltNum(a0, c) ELSE 0>>
 
